@@ -32,7 +32,7 @@ MonNext ==
                ELSE held
     /\ last' = IF Ev.ev = "Reset" THEN [act |-> "Init"]
                ELSE IF Ev.ev = "Lookup"
-               THEN [act |-> "Lookup", r |-> Ev.r, t |-> Ev.t, kind |-> Ev.kind, fail |-> SeqRange(Ev.fail), res |-> Ev.res]
+               THEN [act |-> "Lookup", r |-> Ev.r, t |-> Ev.t, kind |-> Ev.kind, fail |-> SeqRange(Ev.fail), cancel |-> Ev.cancel, res |-> Ev.res]
                ELSE [act |-> Ev.ev, r |-> Ev.r, t |-> Ev.t, res |-> Ev.res]
     /\ UNCHANGED rc
     /\ IF Has("layer")
@@ -78,7 +78,7 @@ MonLastReleaseDropsBookkeeping ==
               /\ IsOwn(r, last'.t) => out'[r][last'.t] = 0]_mvars
 MonNextLookupResolvesAgain ==
     [][Both => \A r \in Refs :
-         (IsLayerLookup(last') /\ last'.r = r /\ IsOwn(r, last'.t) /\ last'.t \notin last'.fail
+         (IsLayerLookup(last') /\ last'.r = r /\ IsOwn(r, last'.t) /\ last'.t \notin last'.fail /\ ~last'.cancel
               /\ ~layer[r][last'.t] /\ Tracked(cnt, r) = {} /\ memo[r][last'.t] # "err"
               /\ ~(Fuse /\ last'.kind \in kids[r][last'.t]))
            => (last'.res = "ok" /\ layer'[r][last'.t] /\ memo'[r][last'.t] = "ok" /\ out'[r][last'.t] = 1)]_mvars
@@ -86,7 +86,7 @@ MonNextLookupResolvesAgain ==
 \* stale state (all "none" since the Reset) says the same
 MonLookupSucceedsIffTocInImage ==
     [][\A r \in Refs :
-         (IsLayerLookup(last') /\ last'.r = r /\ IsOwn(r, last'.t) /\ last'.t \notin last'.fail
+         (IsLayerLookup(last') /\ last'.r = r /\ IsOwn(r, last'.t) /\ last'.t \notin last'.fail /\ ~last'.cancel
               /\ memo[r][last'.t] # "err")
            => last'.res = "ok"]_mvars
 =============================================================================
